@@ -353,19 +353,24 @@ def replay_file(binaries, path):
                 if v.get("rule") == rf.get("rule"):
                     return True, v
         return False, None
-    recs, err, rc = one_shot(binary, prop, "replay", dict(VERIF_REPLAY=path))
-    for r in recs:
-        if r.get("type") == "replay":
-            v = r.get("violation")
-            if v and v["rule"] == rf["rule"]:
-                return True, dict(rf, digest_now=r.get("digest"), detail=v["detail"])
-            return False, r
-    if rc != 0:
-        # the replay crashed the process; classify as the batch would
-        head, fn = larking_frame_in_crash(err)
-        if rf.get("rule") == "crash" and fn:
-            return True, rf
-    return False, None
+    # The seed does not own Go's map iteration order inside larking nor select
+    # choice inside grpc-go (DESIGN section 2): a replay that depends on either
+    # may need more than one attempt.
+    last = None
+    for attempt in range(4):
+        recs, err, rc = one_shot(binary, prop, "replay", dict(VERIF_REPLAY=path))
+        for r in recs:
+            if r.get("type") == "replay":
+                v = r.get("violation")
+                if v and v["rule"] == rf["rule"]:
+                    return True, dict(rf, digest_now=r.get("digest"), detail=v["detail"], attempts=attempt + 1)
+                last = r
+        if rc != 0:
+            # the replay crashed the process; classify as the batch would
+            head, fn = larking_frame_in_crash(err)
+            if rf.get("rule") == "crash" and fn:
+                return True, rf
+    return False, last
 
 
 def write_evidence(prop, tier, seed, level, cov, wall, nviol, assumptions):
